@@ -14,13 +14,14 @@ work = os.path.join(HARNESS, 'target', 'fuzz-work', target + ('-' + only if only
 shutil.rmtree(work, ignore_errors=True)
 os.makedirs(work)
 t0 = time.time()
-b = subprocess.run(['cargo', '+nightly', 'fuzz', 'build', target], cwd=HARNESS, env=env, stdout=subprocess.PIPE, stderr=subprocess.STDOUT, text=True)
+# no sanitizer: the engine and the harness contain no unsafe code, the oracle is inside the target
+b = subprocess.run(['cargo', '+nightly', 'fuzz', 'build', '--sanitizer', 'none', target], cwd=HARNESS, env=env, stdout=subprocess.PIPE, stderr=subprocess.STDOUT, text=True)
 if b.returncode != 0:
     print(b.stdout[-3000:], file=sys.stderr)
     json.dump({'error': 'fuzz build failed'}, open(summary, 'w'))
     sys.exit(2)
 binary = os.path.join(HERE, 'target', 'x86_64-unknown-linux-gnu', 'release', target)
-maxlen = {'parse_board': 600, 'parse_action': 16, 'game': 4096}[target]
+maxlen = {'parse_board': 600, 'parse_action': 16, 'game': 640}[target]
 result = {'target': target, 'only': only, 'runs_per_worker': runs, 'seed': seed, 'campaigns': []}
 artifacts = []
 for name, seeded, workers in (('seeded', True, 12), ('empty', False, 4)):
